@@ -540,8 +540,19 @@ def _fix_multiline_opening_tag_with_closing(text: str) -> str:
             match = _multiline_closing_pattern.search(line)
             if match:
                 # Find which named group matched and split at the closing tag
-                for group_name in ["closing_tag", "closing_comment", "closing_var", "closing_html"]:
+                for group_name, tag_kind in [
+                    ("closing_tag", SINGLE_JINJA_TAG),
+                    ("closing_comment", SINGLE_JINJA_COMMENT),
+                    ("closing_var", SINGLE_JINJA_VAR),
+                    ("closing_html", SINGLE_HTML_COMMENT),
+                ]:
                     if match.group(group_name) is not None:
+                        # If the opening tag began on this very line (prose before it), it is a
+                        # single-line pair like `text {% field %}{% /field %}` and stays as it is.
+                        head = line[: match.start()]
+                        if head.rfind(tag_kind.open_delim) > head.rfind(tag_kind.close_delim):
+                            result_lines.append(line)
+                            break
                         split_pos = match.start(group_name)
                         before = line[:split_pos].rstrip()
                         closing = line[split_pos:].lstrip()
